@@ -31,13 +31,20 @@ program's abstraction *for a given configuration* to the Coq type
 `Exec.RuntimeMachine.fld`:
 
     mode  blocking x2         asyncio "aio" (no thread offload)  threadpool "pool" / asyncio "aiot" (thread offload, the default)
-    S     attribute callable  attribute callable                 attribute callable   (default resolver: immediate)
+    S     attribute callable  attribute callable                 attribute callable   (default resolver over an object
+                                                                                      *method* returning a plain value: immediate)
+    A     default resolver over a (non-callable) object attribute                     immediate everywhere
+    V     default resolver over a dict value (the parent is a Mapping; all its
+          default-resolved fields are then V)                                         immediate everywhere
+    D     default resolver over an object method that returns a *deferred* value: a coroutine under asyncio, a
+          Future from info.runtime.submit under the thread pool (deferred there); a plain value under blocking
     P     plain function      plain function (immediate)         plain function -> handed to the pool / loop executor (deferred)
     C     plain function      coroutine function (deferred)      pool: plain function -> pool task; aiot: coroutine (deferred)
 """
 from py_gql import build_schema, process_graphql_query
 from py_gql.exc import ResolverError, ScalarSerializationError
 from py_gql.schema import ScalarType
+from collections.abc import Mapping
 from py_gql.lang import parse
 from py_gql.validation import validate_ast
 from py_gql.execution import BlockingExecutor, Executor
@@ -53,7 +60,24 @@ import warnings
 warnings.filterwarnings("ignore", category=RuntimeWarning, message="coroutine .* was never awaited")
 
 CONFIGS = ["bexec", "brt", "aio", "aiot", "pool", "poole"]  # poole: pool + calls that finish before submit returns
-MODES = ["S", "P", "C"]
+MODES = ["S", "P", "C", "D", "A", "V"]
+# schema field names: shape + mode (+ variant 0..2 for A and V, whose value is looked up by
+# *name* on the parent: two response keys of one parent must not share such a field)
+FIELD_SUFFIXES = ["S", "P", "C", "D"] + ["%s%d" % (m, i) for m in ("A", "V") for i in range(3)]
+
+
+def field_names(fields):
+    """response key -> schema field name for the fields of one parent"""
+    names, seen = {}, {}
+    for f in sorted(fields, key=lambda f: f["k"]):
+        sh, m = shape_of(f), f["m"]
+        if m in ("A", "V"):
+            i = seen.get((sh, m), 0)
+            seen[(sh, m)] = i + 1
+            names[f["k"]] = "%s%s%d" % (sh, m, i)   # i > 2: no such field -> the generator avoids it
+        else:
+            names[f["k"]] = sh + m
+    return names
 SHAPES = {  # shape name -> (GraphQL type, non-null?, kind)
     "i": ("Int", False, "int"), "in": ("Int!", True, "int"),
     "o": ("T", False, "obj"), "on": ("T!", True, "obj"),
@@ -98,7 +122,7 @@ LAYOUTS = {"distinct": ("Q", "M", ["Q", "M", "T"]), "shared": ("T", "T", ["T"]),
 
 
 def _sdl(layout="distinct"):
-    fields = "\n".join("  %s%s: %s" % (sh, m, SHAPES[sh][0]) for sh in SHAPES for m in MODES)
+    fields = "\n".join("  %s%s: %s" % (sh, m, SHAPES[sh][0]) for sh in SHAPES for m in FIELD_SUFFIXES)
     q, mu, types = LAYOUTS[layout]
     return ("scalar Sc\nschema { query: %s mutation: %s }\n" % (q, mu)
             + "".join("type %s {\n%s\n}\n" % (t, fields) for t in types))
@@ -106,9 +130,9 @@ def _sdl(layout="distinct"):
 
 def deferred(fld, config):
     if config in ("pool", "poole", "aiot"):
-        return fld["m"] in ("P", "C")
+        return fld["m"] in ("P", "C", "D")
     if config == "aio":
-        return fld["m"] == "C"
+        return fld["m"] in ("C", "D")
     return False
 
 
@@ -145,8 +169,7 @@ def doc_of(program):
     operation is the order of first occurrence."""
     frag_defs = []
 
-    def field_text(f):
-        name = shape_of(f) + f["m"]
+    def field_text(f, name):
         b = f["b"]
         sub = ""
         if b[0] == "obj":
@@ -165,12 +188,13 @@ def doc_of(program):
 
     def sel(fields, plan, tname):
         by_key = {f["k"]: f for f in fields}
+        names = field_names(fields)
         texts = {}
         used = set()
 
         def text(k):
             if k not in texts:
-                texts[k] = field_text(by_key[k])
+                texts[k] = field_text(by_key[k], names[k])
             return texts[k]
 
         def render(items):
@@ -255,36 +279,75 @@ def ordered_program(program):
 
 
 def world_of(program):
-    table = {}
+    """path -> fld, and (parent path, schema field name) -> response key for A / V fields"""
+    table, by_name = {}, {}
+
+    def level(path, fields):
+        for k, name in field_names(fields).items():
+            by_name[(path, name)] = "k%d" % k
+        for f in fields:
+            walk(path, f)
 
     def walk(path, f):
         p = path + ("k%d" % f["k"],)
         table[p] = f
         b = f["b"]
         if b[0] == "obj":
-            for g in b[1]:
-                walk(p, g)
+            level(p, b[1])
         elif b[0] == "list":
             for i, it in enumerate(b[3]):
                 if it[0] == "obj":
-                    for g in it[1]:
-                        walk(p + (i,), g)
+                    level(p + (i,), it[1])
 
-    for f in program["fields"]:
-        walk((), f)
+    level((), program["fields"])
+    table["by_name"] = by_name
     return table
 
 
 class Obj:
-    """a resolved object: S-mode fields are attribute callables (default resolver)"""
+    """a resolved object, for the default resolver: S fields are methods returning a plain
+    value, D fields methods returning a deferred value, A fields plain attributes"""
 
-    def __init__(self, run):
+    def __init__(self, run, path):
         self._run = run
+        self._path = path
 
     def __getattr__(self, name):
-        if name.startswith("_") or not name.endswith("S"):
+        if name.startswith("_"):
             raise AttributeError(name)
-        return self._run.immediate
+        if name.endswith("S"):
+            return self._run.immediate
+        if name.endswith("D"):
+            return self._run.method_deferred
+        if name[-2:-1] == "A":
+            return self._run.lookup(self._path, name)
+        raise AttributeError(name)
+
+
+class DictObj(Mapping):
+    """a resolved object that is a Mapping: the default resolver returns root.get(name)"""
+
+    def __init__(self, run, path):
+        self._run = run
+        self._path = path
+
+    def get(self, name, default=None):
+        if name[-2:-1] != "V":
+            return default
+        return self._run.lookup(self._path, name)
+
+    def __getitem__(self, name):
+        return self.get(name)
+
+    def __iter__(self):
+        return iter(())
+
+    def __len__(self):
+        return 0
+
+
+def _mw(next_, root, ctx, info, **args):
+    return next_(root, ctx, info, **args)
 
 
 class _Run:
@@ -293,7 +356,19 @@ class _Run:
         self.config = config
         self.ctl = ctl
 
-    def behave(self, fld):
+    def obj(self, path, fields):
+        kind = DictObj if any(f["m"] == "V" for f in fields) else Obj
+        return kind(self, path)
+
+    def lookup(self, parent_path, name):
+        """an attribute / dict value of the parent: evaluated (and logged) when the default
+        resolver reads it"""
+        p = parent_path + (self.world["by_name"][(parent_path, name)],)
+        self.ctl.log("invoke", (p, 0))
+        self.ctl.log("finish", (p, 0))
+        return self.behave(self.world[p], p)
+
+    def behave(self, fld, p):
         b = fld["b"]
         if b[0] == "int":
             return b[1]
@@ -308,11 +383,11 @@ class _Run:
         if b[0] == "sbad":
             return ScBad(b[1])
         if b[0] == "obj":
-            return Obj(self)
+            return self.obj(p, b[1])
         out = []
-        for it in b[3]:
+        for i, it in enumerate(b[3]):
             out.append(None if it[0] == "null" else it[1] if it[0] == "int"
-                       else ScNull() if it[0] == "snull" else Obj(self))
+                       else ScNull() if it[0] == "snull" else self.obj(p + (i,), it[1]))
         return out
 
     # S everywhere; P/C under the blocking configurations; P under asyncio
@@ -320,7 +395,15 @@ class _Run:
         p = tuple(info.path)
         self.ctl.log("invoke", (p, 0))
         self.ctl.log("finish", (p, 0))
-        return self.behave(self.world[p])
+        return self.behave(self.world[p], p)
+
+    # D: a method of the parent object (default resolver) that returns a deferred value
+    def method_deferred(self, ctx, info, **a):
+        if self.config in ("aio", "aiot"):
+            return self.coro(None, ctx, info, **a)          # a coroutine object
+        if self.config == "pool":
+            return info.runtime.submit(self.pooled, None, ctx, info)   # a Future
+        return self.immediate(ctx, info, **a)
 
     def plain(self, _root, ctx, info, **a):
         return self.immediate(ctx, info, **a)
@@ -333,7 +416,7 @@ class _Run:
         def level(l):
             if l < fld["lv"]:
                 return self.ctl.defer((p, l + 1), level, l + 1)
-            return self.behave(fld)
+            return self.behave(fld, p)
 
         return level(0)
 
@@ -347,11 +430,11 @@ class _Run:
             await self.ctl.gate((p, l))
             if l < fld["lv"]:
                 return level(l + 1)
-            return self.behave(fld)
+            return self.behave(fld, p)
 
         if fld["lv"] > 0:
             return level(1)
-        return self.behave(fld)
+        return self.behave(fld, p)
 
     # C under asyncio
     async def coro(self, _root, _ctx, info, **_a):
@@ -362,7 +445,7 @@ class _Run:
             await self.ctl.gate((p, l))
             if l < fld["lv"]:
                 return level(l + 1)
-            return self.behave(fld)
+            return self.behave(fld, p)
 
         return await level(0)
 
@@ -500,7 +583,7 @@ def run_blocking(program, config):
     schema = _schema(config, _BOX, program.get("layout", "distinct"))
     cls = BlockingExecutor if config == "bexec" else Executor
     try:
-        res = process_graphql_query(schema, _validated(schema, program, config), root=Obj(run), validators=[],
+        res = process_graphql_query(schema, _validated(schema, program, config), root=run.obj((), program["fields"]), middlewares=([_mw] if program.get("mw") else None), validators=[],
                                     runtime=BlockingRuntime(), executor_cls=cls)
         state = ("ok", res)
     except Exception as e:  # noqa
@@ -535,7 +618,7 @@ def run_scheduled(program, config, choose, timeout=None):
         try:
             with sched.watchdog(timeout):
                 ctl.start(lambda: process_graphql_query(
-                    schema, doc, root=Obj(run), validators=[], runtime=ctl.runtime, executor_cls=Executor))
+                    schema, doc, root=run.obj((), program["fields"]), middlewares=([_mw] if program.get("mw") else None), validators=[], runtime=ctl.runtime, executor_cls=Executor))
                 schedule = _drive(ctl, choose, schedule)
         except sched.Hang:
             obs = {"hang": True, "events": [[k, _label(lb)] for k, lb in ctl.events],
@@ -572,7 +655,7 @@ def run_threads(program, rng, timeout=None):
         ok = True
         doc = _validated(schema, program, "pool")
         ctl.start(lambda: process_graphql_query(
-            schema, doc, root=Obj(run), validators=[], runtime=ctl.runtime, executor_cls=Executor))
+            schema, doc, root=run.obj((), program["fields"]), middlewares=([_mw] if program.get("mw") else None), validators=[], runtime=ctl.runtime, executor_cls=Executor))
         for _ in range(10000):
             labels = sorted(ctl.parked(), key=repr)
             if not labels:
